@@ -291,9 +291,52 @@ def build_cases(tier: str):
     return cases, gen_stats
 
 
+JOBCFG_INPUTS = [[0], [1], [9], [10], [11], [30], [3, 12], [11, 0, 2], [0, 0, 5], [100]]
+
+
+def job_configuration_runs(rep, tier):
+    """"Every input event": the rendered job configuration (ATestRun_eljob.py, analyzer_cfg.py), executed unmodified
+    against the stand-in job frameworks (mc/standin/jobfw), must schedule the generated algorithm and hand it every event
+    of every listed input file, in file order, and write one output."""
+    from mc.core.translate import translate
+    from mc.lang.jobcfg import run_config
+    n = 0
+    outcomes = set()
+    for backend, coll in (("atlas", "Jets"), ("cms_aod", "Muons"), ("cms_miniaod", "Muons")):
+        queries = [f"ds.Select(lambda e: e.{coll}('A').Count())", f"ds.SelectMany(lambda e: e.{coll}('A')).Select(lambda j: j.pt())"]
+        if backend == "atlas":
+            queries.append("MetaData(ds, {'metadata_type': 'add_job_script', 'name': 'n', 'script': ['# nothing'], 'depends_on': []}).Select(lambda e: e.Jets('A').Count())")
+        for qi, q in enumerate(queries):
+            pkg = translate(q, backend)
+            if not pkg.ok:
+                raise RuntimeError(f"harness: cannot render the package for the job-configuration runs: {backend} {q}: {pkg.exc_msg}")
+            for counts in (JOBCFG_INPUTS if qi == 0 or tier != "quick" else JOBCFG_INPUTS[3:6]):
+                r = run_config(pkg.files, backend, counts)
+                n += 1
+                out = r["output"]
+                want_alg = "query" if backend == "atlas" else "Analyzer"
+                prob = None
+                if r["rc"] != 0:
+                    prob = f"the job configuration failed: {r['stderr'][-300:]}"
+                elif out is None or len(r["produced"]) != 1:
+                    prob = f"the job wrote {r['produced']} instead of exactly one output where the runner script expects it"
+                elif out["inputs"] != r["inputs_expected"]:
+                    prob = f"the job read {out['inputs']} instead of the listed files in order"
+                elif want_alg not in out["algs"]:
+                    prob = f"the generated algorithm '{want_alg}' is not scheduled (scheduled: {out['algs']})"
+                elif out["processed"] != sum(counts):
+                    prob = f"{out['processed']} of {out['total']} input events are processed"
+                outcomes.add((backend, tuple(counts), None if out is None else out["processed"]))
+                if prob:
+                    rep.violation(f"{backend}-jobcfg-{n}", f"job-configuration [{backend}] inputs with {counts} events: {prob} :: {q}",
+                                  {"symptom": "job-configuration", "backend": backend, "query": q, "event_counts": counts, "problem": prob, "observed": r})
+    return n, len(outcomes)
+
+
 def main(tier="quick"):
     rep = Report(PROP, tier)
     known = F.load(PROP)
+    njob, njob_outcomes = job_configuration_runs(rep, tier)
     cases, gen_stats = build_cases(tier)
     events = event_domain(2, 1) if tier == "quick" else event_domain(3, 1)
     # VERIF_SEED only permutes the work order
@@ -343,8 +386,10 @@ def main(tier="quick"):
     rep.set("programs", nprog)
     rep.set("events_in_domain", len(events))
     rep.set("generator", gen_stats)
+    stats["job_configuration_runs"] = njob
     rep.set("counters", dict(stats))
     rep.set("distinct_outcomes", distinct)
+    rep.set("job_configuration", {"runs": njob, "distinct_outcomes": njob_outcomes, "input_event_counts": JOBCFG_INPUTS})
     for c in cases[:4]:
         rep.sample({"backend": c.backend, "query": c.text})
     rep.assumptions += [
@@ -352,6 +397,7 @@ def main(tier="quick"):
         "all event values are dyadic rationals: comparison with the Python reference is exact equality",
         "queries whose Python meaning depends on lazy-vs-eager evaluation, divides by zero or leaves a math domain are skipped (counted)",
         "operator budget and leaf-deviation bound as reported under coverage.generator.*.bounds",
+        "the job frameworks (EventLoop / SampleHandler, cmsRun) are stand-ins (mc/standin/jobfw) that execute the rendered job configuration unmodified: maxEvents < 0 means all events",
     ]
     return rep.finish(require={"traces_validated_against_impl": 1000, "distinct_outcomes": 20})
 
